@@ -157,6 +157,27 @@ def nested():
     out.append((zeros, {'i': 3, 'z': 0, 'b': False, 'e': 0, 'j': 5}))
     out.append((T('SEQUENCEOF', elem=T('INTEGER')), [3, 0, 5]))
     out.append((T('SETOF', elem=T('BOOLEAN')), [True, False]))
+    # mandatory empty collection next to a present OPTIONAL member that sorts before it (SET order: [0] < universal 16?
+    # no: universal class sorts first -- use context tags on both)
+    so_empty = T('SET', [], fields=[('o', T('INTEGER', [('I', CTX, 0)]), 'opt'),
+                                    ('lst', T('SEQUENCEOF', [('I', CTX, 1)], elem=T('INTEGER')), 'req'),
+                                    ('m', T('SEQUENCE', [('I', CTX, 2)], fields=[('x', T('INTEGER'), 'opt')]), 'req')])
+    out.append((so_empty, {'o': 1, 'lst': [], 'm': {}}))
+    out.append((so_empty, {'lst': [], 'm': {}}))
+    out.append((so_empty, {'o': 1, 'lst': [4], 'm': {'x': 2}}))
+    sq_empty = T('SEQUENCE', [], fields=[('o', T('INTEGER'), 'opt'), ('lst', T('SEQUENCEOF', elem=T('BOOLEAN')), 'req'),
+                                         ('z', T('NULL'), 'opt'), ('zz', T('NULL', [('I', CTX, 7)]), ('default', None))])
+    out.append((sq_empty, {'o': 1, 'lst': []}))
+    out.append((sq_empty, {'lst': [], 'z': None}))
+    out.append((sq_empty, {'o': 0, 'lst': [True], 'z': None}))
+    # DEFAULT member of collection type: equal / unequal to the default, any fill order
+    dflt_of = T('SEQUENCE', [], fields=[('id', T('INTEGER'), 'req'),
+                                        ('numbers', T('SEQUENCEOF', elem=T('INTEGER')), ('default', [7, 8])),
+                                        ('names', T('SETOF', [('I', CTX, 0)], elem=T('OCTETSTRING')), ('default', [b'a']))])
+    out.append((dflt_of, {'id': 1}))
+    out.append((dflt_of, {'id': 1, 'numbers': [7, 8]}))
+    out.append((dflt_of, {'id': 1, 'numbers': [8, 7], 'names': [b'a']}))
+    out.append((dflt_of, {'id': 2, 'numbers': [7, 8, 9], 'names': [b'b', b'a']}))
     wrap = T('SEQUENCE', [('E', PRIV, 77)], fields=[('s', sett, 'req'), ('z', T('NULL'), 'opt')])
     out.append((wrap, {'s': {'p': 9, 'q': b''}}))
     out.append((wrap, {'s': {'p': 9, 'q': b'', 'r': False}, 'z': None}))
